@@ -14,7 +14,18 @@ import copy
 import itertools
 
 from . import coqlit as L
+from . import core as _core
 from .core import Prop, rp_import
+
+# the rows of this property are large literals (two file trees per case): evaluate them in smaller shards so
+# that all cores are used also in the quick tier
+if not getattr(_core.coq_eval_rows, '_c11', False):
+    _orig_eval_rows = _core.coq_eval_rows
+
+    def _eval_rows(scratch, header, rows, shard=400, **kw):
+        return _orig_eval_rows(scratch, header, rows, shard=min(shard, 56), **kw)
+    _eval_rows._c11 = True
+    _core.coq_eval_rows = _eval_rows
 
 ACT = {'Transfer': 'Transfer', 'Copy': 'Copy', 'Link': 'Link', 'Move': 'Move', 'Tarball': 'Tarball'}
 STATES = ['TMGR_STAGING_INPUT', 'AGENT_STAGING_INPUT_PENDING', 'AGENT_STAGING_INPUT', 'AGENT_SCHEDULING_PENDING',
@@ -24,9 +35,7 @@ SB = 'file://localhost/R/rsb'
 
 
 def sandboxes(uid):
-    return ('{| sb_client := "/R/client"; sb_task := "%s/s1/p0/%s/"; sb_pilot := "%s/s1/p0/"; '
-            'sb_session := "%s/s1"; sb_resource := "%s"; sb_endpoint := "file://localhost/" |}'
-            % (SB, uid, SB, SB, SB))
+    return '(std_sb %s)' % L.string(uid)
 
 
 def act(a):
@@ -34,7 +43,9 @@ def act(a):
 
 
 def path(p):
-    return L.lst([L.string(c) for c in p.split('/') if c])
+    cs = [c for c in p.split('/') if c]
+    assert all(c != '.' for c in cs)
+    return '(pp %s)' % L.string('/'.join(cs)) if cs else '[]'
 
 
 def sdin(d):
@@ -65,7 +76,14 @@ def node(e):
 
 
 def tree(t):
-    return L.lst(['(["R"], D)'] + [L.pair(path('R/' + e[0]), node(e)) for e in t])
+    return L.lst(['(pp "R", D)'] + [L.pair(path('R/' + e[0]), node(e)) for e in t])
+
+
+def xop(o):
+    from .c11_impl import sbox_rel
+    if o[0] == 'rm':
+        return '(XRm %s)' % path('R/' + sbox_rel(o[1]) + '/' + o[2])
+    return '(XMv %s %s)' % (path('R/' + sbox_rel(o[1]) + '/' + o[2]), path('R/' + sbox_rel(o[3]) + '/' + o[4]))
 
 
 def tasks_in(case):
@@ -75,10 +93,11 @@ def tasks_in(case):
         uid = 't%d' % i
         out = bulks.setdefault(t.get('bulk', 0), [])
         out.append('{| ti_uid := %s; ti_sb := %s; ti_in := %s; ti_out := %s; ti_soe := %s; ti_outcome := %s; '
-                   'ti_exec := %s |}' % (
+                   'ti_exec := %s; ti_ops := %s |}' % (
                        L.string(uid), sandboxes(uid), L.lst([sdin(d) for d in t['in']]),
                        L.lst([sdin(d) for d in t['out']]), L.boolean(t.get('soe')), t['outcome'],
-                       L.lst([L.pair(path(r), L.Z(c)) for r, c in t.get('exec', [])])))
+                       L.lst([L.pair(path(r), L.Z(c)) for r, c in t.get('exec', [])]),
+                       L.lst([xop(o) for o in t.get('ops', [])])))
     return L.lst([L.lst(bulks[b]) for b in sorted(bulks)])
 
 
@@ -143,7 +162,107 @@ class Gen:
             tasks.append(t)
         if r.random() < 0.4:
             self.collide(tasks, files, cid)
+        if r.random() < 0.35:
+            self.dirseq(tasks, files, dirs, cid)
+        if r.random() < 0.2:
+            self.dircopy(tasks, files, dirs, cid)
         return {'files': files, 'dirs': dirs, 'tasks': tasks}
+
+    def dirseq(self, tasks, files, dirs, cid):
+        """stage into a directory, make the directory disappear (a MOVE directive whose source is the directory,
+        or the payload removing / renaming it), stage into it again -- all through the same component instances"""
+        r = self.r
+        self.k += 1
+        k = self.k
+        side = r.choice(['aso', 'aso', 'asi', 'asi', 'tsi', 'tso'])
+        how = r.choice(['move', 'move', 'rm', 'mv']) if side in ('aso', 'asi', 'tsi') else r.choice(['rm', 'mv'])
+        same_task = how == 'move' and side in ('aso', 'asi') and r.random() < 0.4
+        if not same_task and tasks[-1]['bulk'] == tasks[0]['bulk']:
+            tasks.append({'in': [], 'out': [], 'outcome': 'DONE', 'soe': False, 'exec': [],
+                          'bulk': tasks[-1]['bulk'] + 1})
+        i = 0
+        if same_task:
+            kk = i
+        else:
+            kk = r.choice([n for n, t in enumerate(tasks) if t['bulk'] > tasks[i]['bulk']])
+        sb = 'client' if side == 'tso' else r.choice(['pilot', 'pilot', 'session', 'resource'])
+        dname = r.choice(['collect%d', 'stage%d', 'pool%d/sub']) % k
+        if r.random() < 0.5:
+            dirs.append([sb, dname])
+            for n in range(r.choice([0, 1, 2])):
+                files.append([sb, '%s/old%d.dat' % (dname, n), next(cid)])
+
+        def writer(ti, n):
+            t = tasks[ti]
+            uid = 't%d' % ti
+            tgt = self.loc(sb, '%s/w%d_%d.dat' % (dname, k, n), uid, 'none')
+            if side in ('aso', 'tso'):
+                sname = 'out%d_%d.dat' % (k, n)
+                t['exec'].append([sname, next(cid)])
+                t['outcome'], t['soe'] = 'DONE', False
+                src = self.loc('task', sname, uid, 'task')
+                d = {'source': src, 'target': tgt, 'action': 'Copy' if side == 'aso' else 'Transfer'}
+                t['out'].append(self.short(src, tgt) if side == 'tso' and r.random() < 0.5 else d)
+            elif side == 'asi':
+                sname = 'inp%d_%d.dat' % (k, n)
+                ssb = r.choice(['pilot', 'session'])
+                files.append([ssb, sname, next(cid)])
+                t['in'].append({'source': self.loc(ssb, sname, uid, 'none'), 'target': tgt, 'action': 'Copy'})
+            else:
+                sname = 'inp%d_%d.dat' % (k, n)
+                files.append(['client', sname, next(cid)])
+                src = self.loc('client', sname, uid, 'client')
+                t['in'].append(self.short(src, tgt) if r.random() < 0.5 else {'source': src, 'target': tgt})
+
+        writer(i, 0)
+        if r.random() < 0.3:
+            writer(i, 1)
+        if how == 'move':
+            tj = i if (same_task or side == 'tsi' or r.random() < 0.5) else kk
+            uid = 't%d' % tj
+            mt = r.choice([self.loc('task', 'got%d' % k, uid, 'task'), self.loc('session', 'arch%d/' % k, uid, 'none'),
+                           self.loc('task', 'got%d/' % k, uid, 'task')])
+            d = {'source': self.loc(sb, dname, uid, 'none'), 'target': mt, 'action': 'Move'}
+            lst = tasks[tj]['out'] if side == 'aso' else tasks[tj]['in']
+            if side == 'aso':
+                tasks[tj]['outcome'], tasks[tj]['soe'] = 'DONE', False
+            if tj == kk and not same_task:
+                lst.insert(0, d)                     # before the second writer of that task
+            else:
+                lst.append(d)
+        else:
+            tj = i if side in ('asi', 'tsi') else kk
+            op = ['rm', sb, dname] if how == 'rm' else ['mv', sb, dname, sb, dname.split('/')[0] + '.away']
+            tasks[tj].setdefault('ops', []).append(op)
+        writer(kk, 2)
+        if r.random() < 0.3 and kk + 1 < len(tasks):
+            writer(kk + 1, 3)
+
+    def dircopy(self, tasks, files, dirs, cid):
+        """a directory as the source of a TRANSFER / COPY / MOVE"""
+        r = self.r
+        self.k += 1
+        k = self.k
+        ti = r.randrange(len(tasks))
+        t, uid = tasks[ti], 't%d' % ti
+        act = r.choice(['Transfer', 'Copy', 'Copy', 'Move'])
+        sb = 'client' if act == 'Transfer' else r.choice(['pilot', 'session', 'resource'])
+        dname = 'tree%d' % k
+        for n in r.sample(['a.dat', 'b.dat', 'sub/c.dat', 'sub/deep/d.dat'], r.randint(1, 3)):
+            files.append([sb, '%s/%s' % (dname, n), next(cid)])
+        if r.random() < 0.2:
+            dirs.append([sb, dname + '/empty'])
+        src = self.loc(sb, dname, uid, 'client' if act == 'Transfer' else 'none')
+        q = r.random()
+        if q < 0.5:
+            tgt = self.loc('task', 'copy%d' % k, uid, 'task')               # fresh name: the tree appears under it
+        elif q < 0.75:
+            tgt = self.loc('task', 'into%d/' % k, uid, 'task')              # a directory: the tree goes into it
+        else:
+            dirs.append(['pilot', 'have%d' % k])
+            tgt = self.loc('pilot', 'have%d' % k, uid, 'none')              # an existing directory
+        d = {'source': src, 'target': tgt, 'action': act}
+        t['in'].append(self.short(src, tgt) if act == 'Transfer' and r.random() < 0.5 else d)
 
     def collide(self, tasks, files, cid):
         """two or three TRANSFER/COPY directives -- of one task, of several tasks of one bulk, of several bulks --
@@ -335,7 +454,7 @@ class C11(Prop):
     rule = ('corpus, then seed-determined cases of 1-3 tasks in 1-3 consecutive bulks with 0-4 input and 0-3 output directives (all actions; '
             'short forms > >> < <<, dict form with/without target/action, invalid keys, empty sources; relative, '
             'absolute, file://, pwd://, client/resource/session/pilot/task/endpoint:// spellings; directory and empty '
-            'targets, missing sources, host parts; in 40% of the cases two or three TRANSFER/COPY directives of one task, of several tasks of a bulk or of several bulks staging different data to the same pilot/session/resource/task/client path, the path sometimes holding a file before the run; all initial files are an hour old so that a target staged earlier in the run is newer than the next source) and outcomes DONE/FAILED/CANCELED with/without '
+            'targets, missing sources, host parts; in 40% of the cases two or three TRANSFER/COPY directives of one task, of several tasks of a bulk or of several bulks staging different data to the same pilot/session/resource/task/client path, the path sometimes holding a file before the run; all initial files are an hour old so that a target staged earlier in the run is newer than the next source); in 35% of the cases a directory is staged into, disappears (MOVE directive with the directory as source, or the payload removing / renaming it between two tasks) and is staged into again, on the agent-output, agent-input, client-input or client-output side, all bulks handled by the same component and helper instances; in 20% a directory tree is the source of a TRANSFER/COPY/MOVE (fresh name, trailing-slash and existing-directory targets) and outcomes DONE/FAILED/CANCELED with/without '
             'stage_on_error; thorough adds an exhaustive action x source-spelling x target-spelling x outcome sweep; '
             'non-trivial = the run changed the file tree and the case has at least two directives')
     trusted = [
@@ -344,12 +463,12 @@ class C11(Prop):
         'python tarfile/shutil/os on a scratch tree; compared inside Coq by vm_compute with Staging.Model.run_case',
         'modelled, not verified: ru.Url parsing (modelled for strings [schema://[host]]path without . and .. '
         'components), os.makedirs/cp -r/shutil.move/os.link/tarfile semantics on regular files (Staging.Model fs ops)',
-        'not modelled: directory sources (cp -r of trees), DOWNLOAD (http), the SAGA backend / remote transfers, '
+        'not modelled: DOWNLOAD (http), TARBALL of a directory, partial effects of conflicting cp -r merges, the SAGA backend / remote transfers, '
         'flags and priority of directives, the bulk-mkdir tar optimisation of tmgr staging_input (threshold never '
         'reached), stdout/stderr collection, hard-link identity',
     ]
     assumptions = ['location strings have the form [schema://[host]]path over printable ASCII without `.`/`..` '
-                   'components; sources are regular files; no other process changes the sandboxes during staging']
+                   'components; sources are regular files or directory trees; no other process changes the sandboxes during staging']
 
     def cases(self, rng, tier):
         g = Gen(rng)
@@ -438,8 +557,8 @@ class C11(Prop):
             for i in range(len(ts)):
                 yield dict(case, tasks=ts[:i] + ts[i + 1:])
         for i, t in enumerate(ts):
-            for key in ('in', 'out', 'exec'):
-                for j in range(len(t[key])):
+            for key in ('in', 'out', 'exec', 'ops'):
+                for j in range(len(t.get(key, []))):
                     t2 = dict(t)
                     t2[key] = t[key][:j] + t[key][j + 1:]
                     yield dict(case, tasks=ts[:i] + [t2] + ts[i + 1:])
